@@ -19,6 +19,22 @@
 namespace engine
 {
 
+#ifdef CHESSPP_VERIF
+namespace verif
+{
+void (*on_node)(Search*, int kind, Info* info, int depth, Value alpha, Value beta) = nullptr;
+void (*on_exit)(Search*, int kind, Info* info, Value ret) = nullptr;
+void (*on_point)(Search*, int point) = nullptr;
+}  // namespace verif
+#define VERIF_NODE(kind) \
+    if (verif::on_node) verif::on_node(this, kind, info, depth, alpha, beta);
+#define VERIF_POINT(p) \
+    if (verif::on_point) verif::on_point(this, p);
+#else
+#define VERIF_NODE(kind)
+#define VERIF_POINT(p)
+#endif
+
 int late_move_reduction(Depth /* depth */, int move_number)
 {
     move_number = std::min(move_number, 64);
@@ -173,12 +189,16 @@ Search::Search(const Position& position, const Limits& limits,
 
 void Search::stop()
 {
+    VERIF_POINT(5)
     stop_search = true;
+    VERIF_POINT(6)
 }
 
 void Search::go()
 {
+    VERIF_POINT(0)
     init_search();
+    VERIF_POINT(1)
     _start_time = std::chrono::steady_clock::now();
 
     // check if there is only one move to make
@@ -186,12 +206,14 @@ void Search::go()
     {
         _search_time = 500;
     }
+    VERIF_POINT(2)
     iter_search();
 
     // no iteration completed (stopped or out of time at once): answer with a root move anyway
     if (_best_move == NO_MOVE && !_root_moves.empty()) _best_move = _root_moves[0];
 
     ASSERT(_best_move != NO_MOVE);
+    VERIF_POINT(4)
     sync_cout << "bestmove " << _position.uci(_best_move) << sync_endl;
 }
 
@@ -262,6 +284,7 @@ void Search::iter_search()
     _current_depth = 0;
     while (!stop_search)
     {
+        VERIF_POINT(3)
         _current_depth++;
 
         _stats = SearchStats{};
@@ -339,6 +362,7 @@ Value Search::search(Position& position, Depth depth, Value alpha, Value beta,
     const bool ROOT_NODE = info->_ply == 0;
     const bool PV_NODE = beta != alpha + 1;
     const bool IS_NULL = (info - 1)->_current_move == NO_MOVE;
+    VERIF_NODE(0)
 
     LOG_DEBUG("[%d] ENTER SEARCH depth=%d alpha=%ld beta=%ld pvNode=%d fen=%s",
               info->_ply, depth, alpha, beta, static_cast<int>(PV_NODE), position.fen().c_str());
@@ -661,6 +685,7 @@ Value Search::quiescence_search(Position& position, Depth depth, Value alpha,
     clear_pv_list(info);
 
     const bool PV_NODE = beta != alpha + 1;
+    VERIF_NODE(1)
 
     LOG_DEBUG("[%d] ENTER QUIESCENCE_SEARCH depth=%d alpha=%ld beta=%ld isPV=%d fen=%s",
               info->_ply, depth, alpha, beta, static_cast<int>(PV_NODE), position.fen().c_str());
